@@ -506,8 +506,19 @@ def run_real(data, opts, name=None, want_doc=True):
     try:
         with time_limit():
             return _run_real(data, opts, name, want_doc)
+    except DidNotTerminate:
+        pass
+    # once more, after a garbage collection: the limit counts the CPU time of the whole process, and in the thorough tier
+    # (tens of thousands of cases and results alive) a full collection that happened to start inside the window was charged
+    # to the call - three clean-tree cases "did not terminate" there and replayed in half a second.  A call that really
+    # does not return fails the second attempt as well.
+    import gc
+    gc.collect()
+    try:
+        with time_limit():
+            return _run_real(data, opts, name, want_doc)
     except DidNotTerminate as e:
-        return {"err": "DidNotTerminate", "err_text": "the library call did not return: %s" % e, "imageCalls": [], "raw": {"err": "DidNotTerminate"}}
+        return {"err": "DidNotTerminate", "err_text": "the library call did not return (two attempts): %s" % e, "imageCalls": [], "raw": {"err": "DidNotTerminate"}}
 
 
 def _run_real(data, opts, name=None, want_doc=True):
